@@ -359,8 +359,21 @@ func (c *xsyncMap) DeleteExpired() {
 	c.items.Range(func(k string, v interface{}) bool {
 		i := v.(item)
 		if i.expiredWithNow(now) {
-			c.items.Delete(k)
-			if ec != nil {
+			// Re-check under the bucket lock: remove only what is still
+			// expired at this moment, and report what was really removed.
+			removed := false
+			c.items.Compute(k, func(value interface{}, loaded bool) (interface{}, bool) {
+				if loaded {
+					cur := value.(item)
+					if !cur.expiredWithNow(now) {
+						// k has a new value
+						return cur, false
+					}
+					i, removed = cur, true
+				}
+				return nil, true
+			})
+			if removed && ec != nil {
 				evictedItems = append(evictedItems, kv{k, i.v})
 			}
 		}
